@@ -516,9 +516,17 @@ func (t *Collection) VisitItemsRandom(
 				blockStore[i] = itm.Key
 				return false
 			}
+			if si == nil {
+				continue // Block already exhausted.
+			}
 			err = t.VisitItemsAscendEx(si, true, vis)
 			if err != nil {
 				return err
+			}
+			if !first {
+				// No item follows the one just visited: the (partial) last
+				// block is done, do not present its last item again.
+				blockStore[i] = nil
 			}
 		}
 	}
